@@ -147,6 +147,184 @@ theorem spec_interval_reduced (key : Message → Nat) (th : Nat) :
       simp only [Loop.spec, hstep]
       exact .other p m ms _ hrec' (ih _ hv')
 
+/-- the interval loops on EVERY message list (no hypothesis on the keys): `ReducedI` from the loop's own state -/
+theorem spec_interval_reducedI (key : Message → Nat) (th : Nat) :
+    ∀ (ms : List Message) (s : RState),
+      ReducedI key wrapSub th s.last s.reached ms (Loop.spec (intervalStep key th) s ms) := by
+  intro ms
+  induction ms with
+  | nil => intro s; exact .nil _ _
+  | cons m ms ih =>
+    intro s
+    by_cases hrec : isRecord m = true
+    · cases hr : s.reached with
+      | false =>
+        have hstep : intervalStep key th s m =
+            (.keepNoSwap, { last := if key m != uint32Invalid then key m else s.last, reached := true }) := by
+          simp [intervalStep, hrec, hr]
+        simp only [Loop.spec, hstep]
+        have := ih { last := if key m != uint32Invalid then key m else s.last, reached := true }
+        refine .first s.last m ms _ hrec ?_
+        have e : (if key m = uint32Invalid then s.last else key m) = (if key m != uint32Invalid then key m else s.last) := by
+          by_cases hk : key m = uint32Invalid <;> simp [hk]
+        rw [e]; exact this
+      | true =>
+        by_cases hk : key m = uint32Invalid
+        · have hstep : intervalStep key th s m = (.drop, s) := by simp [intervalStep, hrec, hr, hk]
+          simp only [Loop.spec, hstep]
+          have := ih s; rw [hr] at this
+          exact .noKey s.last m ms _ hrec hk this
+        · by_cases h2 : wrapSub (key m) s.last < th
+          · have h2' : (key m + 2 ^ 32 - s.last) % 2 ^ 32 < th := h2
+            have hstep : intervalStep key th s m = (.drop, s) := by simp [intervalStep, hrec, hr, hk, h2']
+            simp only [Loop.spec, hstep]
+            have := ih s; rw [hr] at this
+            exact .drop s.last m ms _ hrec hk h2 this
+          · have h2' : ¬ (key m + 2 ^ 32 - s.last) % 2 ^ 32 < th := h2
+            have hstep : intervalStep key th s m = (.keep, { s with last := key m }) := by
+              simp [intervalStep, hrec, hr, hk, h2']
+            simp only [Loop.spec, hstep]
+            have := ih { s with last := key m }
+            simp only [hr] at this
+            have es : ({ s with last := key m } : RState) = { last := key m, reached := true } := by rw [← hr]
+            rw [es]
+            exact .keep s.last m ms _ hrec hk (Nat.le_of_not_lt h2) this
+    · have hrec' : isRecord m = false := by simpa using hrec
+      have hstep : intervalStep key th s m = (.keep, s) := by simp [intervalStep, hrec']
+      simp only [Loop.spec, hstep]
+      exact .other _ _ m ms _ hrec' (ih s)
+
+/-- when every record carries a valid key, `ReducedI` is `Reduced` (the `noKey` clause is void, the reference is the key
+of the previously kept record) -/
+theorem ReducedI.toReduced {key diff th} : ∀ {ms out ref reached}, ReducedI key diff th ref reached ms out →
+    KeysValid key ms → Reduced key diff th (if reached then some ref else none) ms out := by
+  intro ms out ref reached h
+  induction h with
+  | nil ref reached => intro _; exact .nil _
+  | other ref reached m ms out hm _ ih =>
+    intro hv; exact .other _ m ms out hm (ih fun x hx => hv x (List.mem_cons_of_mem _ hx))
+  | first ref m ms out hm _ ih =>
+    intro hv
+    have hk : key m ≠ uint32Invalid := hv m (List.mem_cons_self ..) hm
+    have := ih fun x hx => hv x (List.mem_cons_of_mem _ hx)
+    simp only [hk, if_false, if_true] at this
+    exact .first m ms out hm this
+  | noKey ref m ms out hm hk _ _ => intro hv; exact absurd hk (hv m (List.mem_cons_self ..) hm)
+  | keep ref m ms out hm _ hth _ ih =>
+    intro hv; exact .keep ref m ms out hm hth (ih fun x hx => hv x (List.mem_cons_of_mem _ hx))
+  | drop ref m ms out hm _ hth _ ih =>
+    intro hv; exact .drop ref m ms out hm hth (ih fun x hx => hv x (List.mem_cons_of_mem _ hx))
+
+theorem ReducedI.sublist {key diff th ref reached ms out} (h : ReducedI key diff th ref reached ms out) : out.Sublist ms := by
+  induction h with
+  | nil => exact .slnil
+  | other _ _ _ _ _ _ _ ih => exact ih.cons_cons _
+  | first _ _ _ _ _ _ ih => exact ih.cons_cons _
+  | noKey _ _ _ _ _ _ _ ih => exact ih.cons _
+  | keep _ _ _ _ _ _ _ _ ih => exact ih.cons_cons _
+  | drop _ _ _ _ _ _ _ _ ih => exact ih.cons _
+
+theorem ReducedI.nonRecords {key diff th ref reached ms out} (h : ReducedI key diff th ref reached ms out) :
+    out.filter (fun m => !isRecord m) = ms.filter (fun m => !isRecord m) := by
+  induction h with
+  | nil => rfl
+  | other _ _ m _ _ hm _ ih => simp [hm, ih]
+  | first _ m _ _ hm _ ih => simp [hm, ih]
+  | noKey _ m _ _ hm _ _ ih => simp [hm, ih]
+  | keep _ m _ _ hm _ _ _ ih => simp [hm, ih]
+  | drop _ m _ _ hm _ _ _ ih => simp [hm, ih]
+
+/-- the first record of the input is the first record of the output -/
+theorem ReducedI.firstRecord {key diff th ref ms out} (h : ReducedI key diff th ref false ms out) :
+    out.find? isRecord = ms.find? isRecord := by
+  generalize hp : false = reached at h
+  induction h with
+  | nil => rfl
+  | other _ _ m _ _ hm _ ih => simp [hm, ih hp]
+  | first _ m _ _ hm _ _ => simp [hm]
+  | noKey _ _ _ _ _ _ _ _ => cases hp
+  | keep _ _ _ _ _ _ _ _ _ => cases hp
+  | drop _ _ _ _ _ _ _ _ _ => cases hp
+
+/-- `reducedIB` decides `ReducedI` -/
+theorem reducedIB_iff (key : Message → Nat) (diff : Nat → Nat → Nat) (th : Nat) :
+    ∀ (ms out : List Message) (ref : Nat) (reached : Bool),
+      reducedIB key diff th ref reached ms out = true ↔ ReducedI key diff th ref reached ms out := by
+  intro ms
+  induction ms with
+  | nil =>
+    intro out ref reached
+    cases out with
+    | nil => simp only [reducedIB, List.isEmpty_nil, true_iff]; exact .nil _ _
+    | cons o os => simp only [reducedIB, List.isEmpty_cons, Bool.false_eq_true, false_iff]; intro h; cases h
+  | cons m ms ih =>
+    intro out ref reached
+    by_cases hrec : isRecord m = true
+    · cases reached with
+      | false =>
+        cases out with
+        | nil => simp only [reducedIB, hrec, Bool.not_true, Bool.false_eq_true, if_false, Bool.not_false, if_true, false_iff]; intro h; cases h
+        | cons o os =>
+          simp only [reducedIB, hrec, Bool.not_true, Bool.false_eq_true, if_false, Bool.not_false, if_true, Bool.and_eq_true, beq_iff_eq, ih]
+          constructor
+          · rintro ⟨rfl, h⟩; exact .first _ _ _ _ hrec h
+          · intro h; cases h with
+            | other _ _ _ _ _ hm _ => rw [hrec] at hm; cases hm
+            | first _ _ _ _ _ h => exact ⟨rfl, h⟩
+      | true =>
+        by_cases hk : key m = uint32Invalid
+        · simp only [reducedIB, hrec, Bool.not_true, Bool.false_eq_true, if_false, hk, if_true, ih]
+          constructor
+          · intro h; exact .noKey _ _ _ _ hrec hk h
+          · intro h; cases h with
+            | other _ _ _ _ _ hm _ => rw [hrec] at hm; cases hm
+            | noKey _ _ _ _ _ _ h => exact h
+            | keep _ _ _ _ _ hk' _ _ => exact absurd hk hk'
+            | drop _ _ _ _ _ hk' _ _ => exact absurd hk hk'
+        · by_cases hd : diff (key m) ref < th
+          · simp only [reducedIB, hrec, Bool.not_true, Bool.false_eq_true, if_false, hk, hd, if_true, ih]
+            constructor
+            · intro h; exact .drop _ _ _ _ hrec hk hd h
+            · intro h; cases h with
+              | other _ _ _ _ _ hm _ => rw [hrec] at hm; cases hm
+              | noKey _ _ _ _ _ hk' _ => exact absurd hk' hk
+              | keep _ _ _ _ _ _ hth _ => omega
+              | drop _ _ _ _ _ _ _ h => exact h
+          · cases out with
+            | nil =>
+              simp only [reducedIB, hrec, Bool.not_true, Bool.false_eq_true, if_false, hk, hd, false_iff]
+              intro h; cases h with
+              | noKey _ _ _ _ _ hk' _ => exact absurd hk' hk
+              | drop _ _ _ _ _ _ hth _ => exact absurd hth hd
+            | cons o os =>
+              simp only [reducedIB, hrec, Bool.not_true, Bool.false_eq_true, if_false, hk, hd, Bool.and_eq_true, beq_iff_eq, ih]
+              constructor
+              · rintro ⟨rfl, h⟩; exact .keep _ _ _ _ hrec hk (Nat.le_of_not_lt hd) h
+              · intro h; cases h with
+                | other _ _ _ _ _ hm _ => rw [hrec] at hm; cases hm
+                | noKey _ _ _ _ _ hk' _ => exact absurd hk' hk
+                | keep _ _ _ _ _ _ _ h => exact ⟨rfl, h⟩
+                | drop _ _ _ _ _ _ hth _ => exact absurd hth hd
+    · have hrec' : isRecord m = false := by simpa using hrec
+      cases out with
+      | nil =>
+        simp only [reducedIB, hrec', Bool.not_false, if_true]
+        constructor
+        · intro h; cases h
+        · intro h; cases h with
+          | noKey _ _ _ _ hm _ _ => rw [hrec'] at hm; cases hm
+          | drop _ _ _ _ hm _ _ _ => rw [hrec'] at hm; cases hm
+      | cons o os =>
+        simp only [reducedIB, hrec', Bool.not_false, if_true, Bool.and_eq_true, beq_iff_eq, ih]
+        constructor
+        · rintro ⟨rfl, h⟩; exact .other _ _ _ _ _ hrec' h
+        · intro h; cases h with
+          | other _ _ _ _ _ _ h => exact ⟨rfl, h⟩
+          | first _ _ _ _ hm _ => rw [hrec'] at hm; cases hm
+          | noKey _ _ _ _ hm _ _ => rw [hrec'] at hm; cases hm
+          | keep _ _ _ _ hm _ _ _ => rw [hrec'] at hm; cases hm
+          | drop _ _ _ _ hm _ _ _ => rw [hrec'] at hm; cases hm
+
 theorem Reduced.sublist {key diff th p ms out} (h : Reduced key diff th p ms out) : out.Sublist ms := by
   induction h with
   | nil => exact .slnil
@@ -575,15 +753,16 @@ theorem concealEnd_touch (th : Nat) (idx : Int) (ms : List Message) : Rel2 Touch
   unfold concealEnd
   split
   · exact Rel2.refl Touch.refl _
-  · have a := scanEndRev_touch th ms.reverse uint32Invalid
-    have b := updEndRev_touch (Or.inl rfl) (recAt (scanEndRev th uint32Invalid ms.reverse).1.reverse (scanEndRev th uint32Invalid ms.reverse).2)
-      (decide (idx > (scanEndRev th uint32Invalid ms.reverse).2)) (scanEndRev th uint32Invalid ms.reverse).1
-    have c := updEndRev_touch (Or.inr rfl) (recAt (scanEndRev th uint32Invalid ms.reverse).1.reverse (scanEndRev th uint32Invalid ms.reverse).2)
-      (decide (idx > (scanEndRev th uint32Invalid ms.reverse).2))
-      (updEndRev lapPH (recAt (scanEndRev th uint32Invalid ms.reverse).1.reverse (scanEndRev th uint32Invalid ms.reverse).2)
-        (decide (idx > (scanEndRev th uint32Invalid ms.reverse).2)) (scanEndRev th uint32Invalid ms.reverse).1)
-    have d := (touch2_trans (touch2_trans a b) c).reverse
-    simpa using d
+  · -- whatever record and overlap flag the update functions are handed
+    have gen : ∀ (ri : RecInfo) (ov : Bool), Rel2 Touch ms
+        (updEndRev sesPH ri ov (updEndRev lapPH ri ov (scanEndRev th uint32Invalid ms.reverse).1)).reverse := by
+      intro ri ov
+      have a := scanEndRev_touch th ms.reverse uint32Invalid
+      have b := updEndRev_touch (Or.inl rfl) ri ov (scanEndRev th uint32Invalid ms.reverse).1
+      have c := updEndRev_touch (Or.inr rfl) ri ov (updEndRev lapPH ri ov (scanEndRev th uint32Invalid ms.reverse).1)
+      have d := (touch2_trans (touch2_trans a b) c).reverse
+      simpa using d
+    exact gen _ _
 
 theorem conceal_touch (first last : Nat) (ms : List Message) : Rel2 Touch ms (conceal first last ms) := by
   unfold conceal
@@ -867,21 +1046,21 @@ theorem conceal_records (first last : Nat) (ms : List Message) (h : DistOK ms) :
       have a : RecMap (hideIf fun m => lastDist ms - dist m < last) A.reverse (scanEndRev last uint32Invalid A.reverse).1 := by
         rw [scanEndRev_map_unset last (Nat.pos_of_ne_zero hpos) A.reverse hrev hvr, hL]
         exact RecMap.ofMap _ (hideIf_num _) (fun m hm => by simp [hideIf, hm]) _
-      have b := RecMap.ofOthers (ph := lapPH) (by decide)
-        (updEndRev_others lapPH (recAt (scanEndRev last uint32Invalid A.reverse).1.reverse (scanEndRev last uint32Invalid A.reverse).2)
-          (decide (idx > (scanEndRev last uint32Invalid A.reverse).2)) (scanEndRev last uint32Invalid A.reverse).1)
-        (updEndRev_touch (Or.inl rfl) _ _ _)
-      have c := RecMap.ofOthers (ph := sesPH) (by decide)
-        (updEndRev_others sesPH (recAt (scanEndRev last uint32Invalid A.reverse).1.reverse (scanEndRev last uint32Invalid A.reverse).2)
-          (decide (idx > (scanEndRev last uint32Invalid A.reverse).2))
-          (updEndRev lapPH (recAt (scanEndRev last uint32Invalid A.reverse).1.reverse (scanEndRev last uint32Invalid A.reverse).2)
-            (decide (idx > (scanEndRev last uint32Invalid A.reverse).2)) (scanEndRev last uint32Invalid A.reverse).1))
-        (updEndRev_touch (Or.inr rfl) _ _ _)
-      have ab := RecMap.comp (hideIf_num _) a b
-      have abc := RecMap.comp (f := fun m => id (hideIf (fun m => decide (lastDist ms - dist m < last)) m)) (g := id)
-        (fun m => hideIf_num _ m) ab c
-      have r := RecMap.reverse abc
-      simpa using r
+      have gen : ∀ (ri : RecInfo) (ov : Bool), RecMap (hideIf fun m => lastDist ms - dist m < last) A
+          (updEndRev sesPH ri ov (updEndRev lapPH ri ov (scanEndRev last uint32Invalid A.reverse).1)).reverse := by
+        intro ri ov
+        have b := RecMap.ofOthers (ph := lapPH) (by decide)
+          (updEndRev_others lapPH ri ov (scanEndRev last uint32Invalid A.reverse).1)
+          (updEndRev_touch (Or.inl rfl) _ _ _)
+        have c := RecMap.ofOthers (ph := sesPH) (by decide)
+          (updEndRev_others sesPH ri ov (updEndRev lapPH ri ov (scanEndRev last uint32Invalid A.reverse).1))
+          (updEndRev_touch (Or.inr rfl) _ _ _)
+        have ab := RecMap.comp (hideIf_num _) a b
+        have abc := RecMap.comp (f := fun m => id (hideIf (fun m => decide (lastDist ms - dist m < last)) m)) (g := id)
+          (fun m => hideIf_num _ m) ab c
+        have r := RecMap.reverse abc
+        simpa using r
+      exact gen _ _
   unfold conceal
   exact RecMap.comp (hideIf_num _) hs he
 
